@@ -130,6 +130,8 @@ def main(tier, seed):
                 tooltier.add_zst_error(prog, rng)
             if i % 3 == 0:
                 tooltier.add_special_methods(prog, rng, b)
+            if i % 4 == 1:
+                tooltier.add_docs(prog, rng)
             emit_rust.assign_abi_names(prog)
             d = toolrun.fresh_dir(toolrun.workdir("c09", "p%d_%s" % (i, b)))
             src, cfg = tooltier.write_program(prog, d, "")
